@@ -138,6 +138,11 @@ func (p *makefileParser) handleTarget(
 		Inputs:       annotation.Inputs,
 		Outputs:      annotation.Outputs,
 		Tags:         annotation.Tags,
+		// The remaining annotation fields are passed on as in the script loader.
+		Fingerprint:          annotation.Fingerprint,
+		EnvironmentVariables: annotation.EnvironmentVariables,
+		Timeout:              annotation.Timeout,
+		Platforms:            annotation.Platforms,
 	}
 
 	// Use the annotation's name as key if provided, otherwise use the target name.
